@@ -215,15 +215,20 @@ PROPS = {
                          "RModel.Facts.bsi64ValueFitsBitCount_spec", "RModel.Facts.encodeBSI64Value_range",
                          "RModel.Facts.encodeBSI64Value_spec", "RModel.Facts.decode_encode_BSI64"] + L2_BSI32_UPD +
             ["RModel.BSI." + n for n in ["get_addIndex", "get_increment", "get_parOr", "get_stream", "get_marshal", "get_marshal_gen",
-                                         "get_marshal_neg", "get_setMany", "get_retain", "wf_addIndex", "wf_increment", "wf_parOr"]],
-            "modules": ["RProofs.Facts.Bits", "RProofs.BSI", "RProofs.BSI32", "RProofs.BSI64Ops"], "owns": None},
-    "C20": {"suites": [("bsiq", 1.0), ("bsix", 0.5)],
+                                         "get_marshal_neg", "get_setMany", "get_retain", "wf_addIndex", "wf_increment", "wf_parOr",
+                                         "getBigValuesGeneric_spec", "getValuesInt64_spec", "getBigValues_spec", "getValues_spec"]],
+            "modules": ["RProofs.Facts.Bits", "RProofs.BSI", "RProofs.BSI32", "RProofs.BSI64Ops", "RProofs.BSI64Big"], "owns": None},
+    "C20": {"suites": [("bsiq", 1.0), ("bsix", 0.5), ("bsibig", 0.5)], "corpus": ["corpus/bsibig/K1_same_with_bcmpabs_passes.txt"],
             "theorems": ["RModel.BSI.compare_spec", "RModel.BSI.compareLE_spec", "RModel.BSI.compareInt64LessAndEqual_spec",
                          "RModel.BSI.batchEqual1_spec", "RModel.BSI.compareInt64Value_isSome", "RModel.BSI.value_fits",
                          "RModel.BSI.sum_spec", "RModel.BSI.sumAll_spec", "RModel.BSI.minMax_spec", "RModel.BSI.minMaxCandidates_spec",
                          "RModel.Facts.transform_monotone", "RModel.Facts.encodeBSI64Value_spec", "RModel.Facts.decode_encode_BSI64"] + L2_BSI32_Q +
-            ["RModel.BSI.batchEqual_spec", "RModel.BSI.transpose_spec", "RModel.BSI.get_transposeWithCounts1"],
-            "modules": ["RProofs.Facts.Bits", "RProofs.BSI", "RProofs.BSI32", "RProofs.BSI64Ops"], "owns": None},
+            ["RModel.BSI.batchEqual_spec", "RModel.BSI.transpose_spec", "RModel.BSI.get_transposeWithCounts1"] +
+            ["RModel.BSI." + n for n in ["compareColumn_spec", "compareBig_spec", "compareBig_spec_existing", "compareBigValue_spec",
+                                         "compareValueAny_spec", "minMaxBig_spec", "compareBSILessAndEqual_spec", "compareBSI_spec",
+                                         "getBigValuesGeneric_spec", "getValuesInt64_spec", "getBigValues_spec", "getValues_spec",
+                                         "batchEqualBig_spec", "batchEqualAny_spec", "compareBigPar_eq", "batchEqualPar_eq", "minOrMax_spec"]],
+            "modules": ["RProofs.Facts.Bits", "RProofs.BSI", "RProofs.BSI32", "RProofs.BSI64Ops", "RProofs.BSI64Big"], "owns": None},
 }
 
 HOOK_COMMITS = ["ad703f4", "ff7f62c", "c535057", "a3657c9"]
